@@ -8,7 +8,7 @@ import models
 from nucs.solvers.backtrack_solver import BacktrackSolver
 from nucs.solvers.multiprocessing_solver import MultiprocessingSolver
 
-SB_MODELS = {"bibd", "golomb", "magic_square", "quasigroup", "quasigroup5", "schur", "sts"}
+SB_MODELS = {"bibd", "golomb", "golomb_bounded", "magic_square", "quasigroup", "quasigroup5", "schur", "sts"}
 OBJ = {"golomb": ("min", "length_idx"), "knapsack": ("max", "weight")}
 
 
@@ -21,7 +21,7 @@ def run(it):
               log_level="ERROR")
     if name == "tsp":
         kw["decision_domains"] = list(range(len(args[0])))
-    if name == "golomb" and cfg.get("golomb_ca"):
+    if name in ("golomb", "golomb_bounded") and cfg.get("golomb_ca"):
         from nucs.examples.golomb.golomb_problem import golomb_consistency_algorithm
         from nucs.solvers.consistency_algorithms import register_consistency_algorithm
         kw["consistency_alg_idx"] = register_consistency_algorithm(golomb_consistency_algorithm)
